@@ -39,6 +39,8 @@ def _mv(rng, k, p, what):
     def one(percol):
         if what == "mean":
             v = rng.normal(0, 5, size=p if percol else 1).round(3)
+            if rng.random() < 0.3:
+                v = v * 0.0  # a pure variance change: the mean stays exactly 0
         else:
             v = np.exp(rng.uniform(-3, 3, size=p if percol else 1)).round(4)
         return v.tolist() if percol else float(v[0])
@@ -105,7 +107,7 @@ def make_recipe(rng, tier):
             r["shuffled"] = True
     elif gen == "alternating":
         r.update(n_segments=int(rng.integers(1, 6)), segment_length=int(rng.integers(1, 15)),
-                 mean=float(rng.normal(0, 5).__round__(3)),
+                 mean=0.0 if rng.random() < 0.3 else float(rng.normal(0, 5).__round__(3)),
                  variance=float(np.exp(rng.uniform(-2, 2)).__round__(4)),
                  affected_proportion=float(rng.choice([1.0, 0.5, 0.0, 0.34, 0.8])))
     elif gen == "outliers":
